@@ -61,6 +61,9 @@ type Session struct {
 	exhaustive  bool
 	notes       []string
 	sentinelOn  bool
+	sentinelF   *os.File
+	sentinelLen int
+	enumCounts  map[string]int64
 	maxSamples  int
 }
 
@@ -257,6 +260,12 @@ func Each[I any](s *Session, sub string, in I, check func(*Case, I)) bool {
 	}
 	failed := false
 	runCase(s, sub, in, check, func(msg string) { failed = true })
+	s.mu.Lock()
+	if s.enumCounts == nil {
+		s.enumCounts = map[string]int64{}
+	}
+	s.enumCounts[sub]++
+	s.mu.Unlock()
 	if failed {
 		s.mu.Lock()
 		s.violation = s.lastFail
@@ -324,7 +333,22 @@ func runCase[I any](s *Session, sub string, in I, check func(*Case, I), fail fun
 	if s.sentinelOn {
 		fr := failRec{Sub: sub, Msg: "in-flight", Input: c.inputRaw()}
 		b, _ := json.Marshal(fr)
-		_ = os.WriteFile(filepath.Join(s.OutDir, fmt.Sprintf("sentinel.%d.json", s.Shard)), b, 0o644)
+		if s.sentinelF == nil {
+			s.sentinelF, _ = os.OpenFile(filepath.Join(s.OutDir, fmt.Sprintf("sentinel.%d.json", s.Shard)), os.O_CREATE|os.O_RDWR|os.O_TRUNC, 0o644)
+		}
+		if s.sentinelF != nil {
+			// one pwrite, padded with spaces to the previous length so that no truncate call is needed
+			if len(b) < s.sentinelLen {
+				pad := make([]byte, s.sentinelLen)
+				copy(pad, b)
+				for i := len(b); i < len(pad); i++ {
+					pad[i] = ' '
+				}
+				b = pad
+			}
+			s.sentinelLen = len(b)
+			_, _ = s.sentinelF.WriteAt(b, 0)
+		}
 	}
 	var failMsg string
 	failedHere := false
@@ -502,6 +526,10 @@ func (s *Session) Finish() {
 	o := out{ID: s.ID, Tier: s.Tier, Seed: s.Seed, Shard: s.Shard, NShards: s.NShards, Evaluations: s.evals,
 		Classes: s.classes, Known: s.known, KnownDetail: s.knownDetail, Subs: s.subs, Status: "pass",
 		WallS: time.Since(s.start).Seconds(), Exhaustive: s.exhaustive, Notes: s.notes}
+	for name, n := range s.enumCounts {
+		o.Subs = append(o.Subs, subRec{Name: name + " (enumerated)", Requested: int(n), Evals: n})
+	}
+	sort.Slice(o.Subs, func(i, j int) bool { return o.Subs[i].Name < o.Subs[j].Name })
 	for d := range s.nontriv {
 		o.NonTrivial = append(o.NonTrivial, d)
 	}
@@ -519,6 +547,9 @@ func (s *Session) Finish() {
 	}
 	b, _ := json.Marshal(o)
 	_ = os.WriteFile(filepath.Join(s.OutDir, fmt.Sprintf("stats.%d.json", s.Shard)), b, 0o644)
+	if s.sentinelF != nil {
+		_ = s.sentinelF.Close()
+	}
 	_ = os.Remove(filepath.Join(s.OutDir, fmt.Sprintf("sentinel.%d.json", s.Shard)))
 	if s.violation != nil {
 		s.T.Errorf("VIOLATION %s sub=%s: %s", s.ID, s.violation.Sub, s.violation.Msg)
